@@ -341,6 +341,32 @@ def _point(ctx, case, fam, impl, kind, state, entry, role, x, rep, expect, class
         if present is not True:
             ctx.mismatch('%s: stored, but the key is not found afterwards (%r)' % (desc, present), dict(sig, what='readback'))
             return
+        # ... and through enumeration: the listing holds exactly this key (value), in ascending order
+        listed = [b[0] for b in after] if is_map else list(after)
+        hits = [x for x in listed if _same_key(x, ek)]
+        if len(hits) != 1 or (sig['code'] in F.BOUNDS and role == 'key' and type(hits[0]) is not int):
+            ctx.mismatch('%s: stored and found by lookup, but the listing of the container shows %r' % (desc, after),
+                         dict(sig, what='readback', got='listing'))
+            return
+        try:
+            ordered = listed == sorted(listed, key=F.sortkey)
+        except TypeError:
+            ordered = True
+        if not ordered:
+            ctx.mismatch('%s: the listing is not ascending afterwards: %r' % (desc, after), dict(sig, what='readback', got='order'))
+            return
+        if is_map:
+            lv = [b[1] for b in after if _same_key(b[0], ek)][0]
+            if not same_value(lv, ev):
+                ctx.mismatch('%s: the listing shows the value %r, expected %r' % (desc, lv, ev),
+                             dict(sig, what='readback', got='wrong-value'))
+                return
+        if is_tree and listed:
+            mk, xk = t.minKey(), t.maxKey()
+            if not (_same_key(mk, listed[0]) and _same_key(xk, listed[-1])):
+                ctx.mismatch('%s: minKey()/maxKey() %r/%r disagree with the listing %r' % (desc, mk, xk, after),
+                             dict(sig, what='readback', got='minmax'))
+                return
         if is_map:
             rv = t[ek]
             if not same_value(rv, ev) or (isinstance(ev, float) and not isinstance(rv, float)):
